@@ -15,6 +15,18 @@ import re
 from ..core import hx, unhx, parallel_map, sha
 
 DRIVERS = ["drv_ansi"]
+_SEEN = {}
+
+
+def report(rep, signature, what, replay):
+    """rep.violation, at most 3 times per signature (core keeps only the first 50 violations of a run:
+    one noisy signature must not crowd out the others)."""
+    n = _SEEN.get(signature, 0)
+    _SEEN[signature] = n + 1
+    if n < 3:
+        rep.violation(signature, what, replay)
+
+
 GENERATED = ["VteTable", "AnsiSgr"]
 ESC = "\x1b"
 
@@ -314,7 +326,7 @@ def oracle_partition(rep, hook, lines, els):
         else:
             sig = "vte-partition:aborted-or-unterminated-sequence"
         rep.count(sig)
-        rep.violation(sig, "the element iterator's ranges are not a partition of the line (bytes of an escape "
+        report(rep, sig, "the element iterator's ranges are not a partition of the line (bytes of an escape "
                       "sequence dropped from its bookkeeping)", dict(kind="hook", op="ansi.elements", line=s, got=e))
 
 
@@ -475,7 +487,7 @@ def oracle_round_trip(ctx, rep, hook):
         rep.case(key=("rt", p), nontrivial=True, sample=dict(op="round-trip", params=p, style=s, painted=o))
         rep.count("round-trip:items=%d" % (p.count(";") + 1 if "38" not in p and "48" not in p else 0))
         if got != want.key():
-            rep.violation("sgr-round-trip:" + re.sub(r"\d+", "N", p)[:30],
+            report(rep, "sgr-round-trip:" + re.sub(r"\d+", "N", p)[:30],
                           "a supported SGR sequence is not re-emitted with the same rendition",
                           dict(kind="round-trip", params=p, style=s, painted=o, want=want.enc()))
 
@@ -515,11 +527,11 @@ def oracle_strip(ctx, rep, hook):
         s, mc, mp, el = r[4 * k:4 * k + 4]
         rep.case(key=("strip", col), nontrivial=ESC in col, sample=dict(op="strip(git colouring)", plain=plain, coloured=col, impl=s))
         if ok_bytes(s) != plain.encode():
-            rep.violation("strip-git-colouring", "strip(coloured) differs from the plain line",
+            report(rep, "strip-git-colouring", "strip(coloured) differs from the plain line",
                           dict(kind="hook", op="ansi.strip", coloured=col, plain=plain, got=s))
         if mc != mp:
             # width is not additive over clusters split by a colour boundary only for ligatures; none in this alphabet
-            rep.violation("measure-git-colouring", "measure(coloured) differs from measure(plain)",
+            report(rep, "measure-git-colouring", "measure(coloured) differs from measure(plain)",
                           dict(kind="hook", op="ansi.measure", coloured=col, plain=plain, got=mc, want=mp))
         # partition: contiguous, from 0 to len, on char boundaries
         cb = col.encode()
@@ -531,7 +543,7 @@ def oracle_strip(ctx, rep, hook):
                 ok = False
             pos = b
         if not ok or pos != len(cb):
-            rep.violation("partition-git-colouring", "element ranges of a git-coloured line are not a partition",
+            report(rep, "partition-git-colouring", "element ranges of a git-coloured line are not a partition",
                           dict(kind="hook", op="ansi.elements", coloured=col, got=el))
 
 
@@ -703,7 +715,7 @@ def binary_case_default(ctx, rep, case):
     rep.count("binary:scheme=" + case["scheme"])
     rep.count("binary:mode=" + " ".join(case["mode"])[:40])
     if rc1 != 0 or rc2 != 0 or rc1 != rc2:
-        rep.violation("binary:exit-status", f"delta exit status {rc1}/{rc2} on plain/coloured input",
+        report(rep, "binary:exit-status", f"delta exit status {rc1}/{rc2} on plain/coloured input",
                       dict(kind="binary", sub="default", stderr=(e1 + e2)[-400:].decode("utf-8", "replace"), case=case))
         return
     # rows of raw-styled elements keep the input colouring by design: with the default
@@ -717,7 +729,7 @@ def binary_case_default(ctx, rep, case):
             tp, tc = strip_py(d[1]).decode("utf-8", "replace"), strip_py(d[2]).decode("utf-8", "replace")
             if "→" in tp and "→" in tc and len(tc.rstrip()) > len(tp.rstrip()):
                 sig = "truncate:text-after-cut"
-        rep.violation(sig, "output for git-coloured input differs from output for the uncoloured input",
+        report(rep, sig, "output for git-coloured input differs from output for the uncoloured input",
                       dict(kind="binary", sub="default", row=d[0] if d else None,
                            plain_row=repr(d[1]) if d else None, coloured_row=repr(d[2]) if d else None, case=case))
 
@@ -733,24 +745,24 @@ def binary_case_raw(ctx, rep, case):
              sample=dict(op="binary raw styles", scheme=case["scheme"], mode=case["mode"]))
     rep.count("binary:raw-mode")
     if rc1 != 0 or rc2 != 0:
-        rep.violation("binary:exit-status", f"delta exit status {rc1}/{rc2}",
+        report(rep, "binary:exit-status", f"delta exit status {rc1}/{rc2}",
                       dict(kind="binary", sub="raw", case=case))
         return
     if "--file-style" in case["mode"]:
         # header elements are raw: same text, and every coloured header line appears verbatim
         if strip_py(o1) != strip_py(o2):
-            rep.violation("raw-headers:text-differs", "raw header styles: visible text differs between coloured and plain input",
+            report(rep, "raw-headers:text-differs", "raw header styles: visible text differs between coloured and plain input",
                           dict(kind="binary", sub="raw", case=case))
         out_lines = set(o2.split(b"\n"))
         for (k, _), c in zip(rows, coloured):
             if k in ("meta", "commit", "hunk") and c.encode() not in out_lines:
-                rep.violation("raw-headers:colouring-lost", "a raw-styled header line did not keep its input colouring",
+                report(rep, "raw-headers:colouring-lost", "a raw-styled header line did not keep its input colouring",
                               dict(kind="binary", sub="raw", line=c, case=case))
                 break
     else:
         # minus/plus raw: the coloured run shows the input colours on those lines
         if strip_py(o1) != strip_py(o2):
-            rep.violation("raw-lines:text-differs", "raw minus/plus styles: visible text differs between coloured and plain input",
+            report(rep, "raw-lines:text-differs", "raw minus/plus styles: visible text differs between coloured and plain input",
                           dict(kind="binary", sub="raw", case=case))
             return
         want = {"-": ("p", 1), "+": ("p", 2)}
@@ -766,7 +778,7 @@ def binary_case_raw(ctx, rep, case):
                         hit = True
                         break
                 if not hit:
-                    rep.violation("raw-lines:colouring-lost", "a raw-styled changed line did not keep its input colour",
+                    report(rep, "raw-lines:colouring-lost", "a raw-styled changed line did not keep its input colour",
                                   dict(kind="binary", sub="raw", line=k + t, case=case))
                     break
 
@@ -800,7 +812,7 @@ def binary_case_moved(ctx, rep, case):
              sample=dict(op="binary moved-line colours", params=params, line=ml, mode=mode))
     rep.count("binary:moved")
     if rc != 0:
-        rep.violation("binary:exit-status", f"delta exit status {rc}", dict(kind="binary", sub="moved", case=case))
+        report(rep, "binary:exit-status", f"delta exit status {rc}", dict(kind="binary", sub="moved", case=case))
         return
     got = None
     for l in out.split(b"\n"):
@@ -811,7 +823,7 @@ def binary_case_moved(ctx, rep, case):
             got = {r for _, r in cells[j:j + len(body)]}
             break
     if got != {want.key()}:
-        rep.violation("moved-colours:" + ("mapped" if case.get("map") else re.sub(r"\d+", "N", params)[:24]),
+        report(rep, "moved-colours:" + ("mapped" if case.get("map") else re.sub(r"\d+", "N", params)[:24]),
                       "a moved-line colour is not shown with exactly the input rendition",
                       dict(kind="binary", sub="moved", want=want.enc(), got=repr(got), case=case))
 
